@@ -8,7 +8,9 @@ package main
 import (
 	"encoding/json"
 	"fmt"
+	"net/url"
 	"os"
+	"sort"
 	"strings"
 	"time"
 
@@ -25,9 +27,17 @@ type scen struct {
 	Def world.SiteDef `json:"site"`
 	Opt world.Options `json:"options"`
 	P   int           `json:"p"`
+	// Late: every seed after the first arrives when the first seed's page has been fetched, so that its
+	// seed check runs while the first seed's assets are being checked by another worker
+	Late bool `json:"late,omitempty"`
+	// Conc: not a site but two concurrent calls of preprocess() on the local store (conc.go)
+	Conc *concSpec `json:"conc,omitempty"`
 }
 
 func (s *scen) name() string {
+	if s.Conc != nil {
+		return s.Conc.name()
+	}
 	n := fmt.Sprintf("%s w%d a%d", s.Def.Name, s.Opt.Workers, s.Opt.MaxConcurrentAssets)
 	if s.Opt.DisableLocalDedupe {
 		n += " disable-local-dedupe"
@@ -35,10 +45,16 @@ func (s *scen) name() string {
 	if s.Opt.LocalSeencheck {
 		n += " local-seencheck"
 	}
+	if s.Late {
+		n += " late-seeds"
+	}
 	return n
 }
 
 func scenario(s *scen) *vsched.Scenario {
+	if s.Conc != nil {
+		return concScenario(s)
+	}
 	var w *world.World
 	sc := &vsched.Scenario{Name: s.name()}
 	sc.Setup = func(x *vsched.Exec) {
@@ -49,6 +65,10 @@ func scenario(s *scen) *vsched.Scenario {
 	sc.Body = func() {
 		w.Start()
 		for i, u := range s.Def.Seeds {
+			if s.Late && i == 1 {
+				first := s.Def.Seeds[0]
+				vsched.Block("h:wait until the first seed's page has been fetched", nil, func() bool { return len(w.FetchesOf(first)) > 0 })
+			}
 			if err := w.Insert(fmt.Sprintf("seed%d", i), u); err != nil {
 				panic(err)
 			}
@@ -78,7 +98,7 @@ func scenario(s *scen) *vsched.Scenario {
 			if isSeed[u] {
 				visits = 2
 			}
-			if n > visits*(s.Opt.MaxRetry+1) {
+			if n > visits*(s.Opt.MaxRetry+1) && !(s.Opt.LocalSeencheck && s.Opt.Workers > 1 && overlapAllowed(w, &s.Def, u)) {
 				return fmt.Errorf("refetched: %s was requested %d times (max-retry %d): fetched by more than one non-seed node", strings.TrimPrefix(u, H), n, s.Opt.MaxRetry)
 			}
 		}
@@ -107,6 +127,45 @@ func scenario(s *scen) *vsched.Scenario {
 	return sc
 }
 
+// overlapAllowed: the local store's lookup and record are two operations, and the property asks only that
+// "a record that completed before a check started" be honoured. With two workers a second fetch of u is
+// therefore legitimate when the two checks may have overlapped. What the transport log proves: u is recorded
+// before its first fetch starts, and u is checked as an asset of a page only after that page's fetch ended.
+// So the second fetch is a violation for certain when the first fetch of u started before every referring
+// page but the earliest one had been fetched; otherwise the checks may have overlapped.
+func overlapAllowed(w *world.World, d *world.SiteDef, u string) bool {
+	fs := w.FetchesOf(u)
+	if len(fs) < 2 {
+		return true
+	}
+	var ends []int
+	for _, n := range d.Nodes {
+		refers := false
+		base, err := url.Parse(n.URL)
+		if err != nil {
+			continue
+		}
+		for _, r := range n.Refs {
+			if ref, err := url.Parse(r); err == nil && base.ResolveReference(ref).String() == u {
+				refers = true
+			}
+		}
+		if !refers {
+			continue
+		}
+		for _, f := range w.FetchesOf(n.URL) {
+			if f.End >= 0 {
+				ends = append(ends, f.End)
+			}
+		}
+	}
+	sort.Ints(ends)
+	if len(ends) < 2 {
+		return false
+	}
+	return fs[0].Start > ends[1]
+}
+
 func scenarios(tier string) []scen {
 	page := func(u string, refs ...string) world.Node { return world.Node{URL: u, Kind: "html", Refs: refs} }
 	bin := func(u string) world.Node { return world.Node{URL: u, Kind: "bin"} }
@@ -119,6 +178,7 @@ func scenarios(tier string) []scen {
 		{Name: "redirect target equals a sibling playlist whose only entry is excluded", Seeds: []string{H + "/p"}, Nodes: []world.Node{page(H+"/p", H+"/r", H+"/l.m3u8"),
 			{URL: H + "/r", Kind: "redirect", Location: H + "/l.m3u8"}, pl(H+"/l.m3u8", "http://excluded.example/x.ts")}},
 		{Name: "two seeds sharing two assets", Seeds: []string{H + "/p1", H + "/p2"}, Nodes: []world.Node{page(H+"/p1", H+"/a.png", H+"/b.png"), page(H+"/p2", H+"/b.png", H+"/a.png"), bin(H + "/a.png"), bin(H + "/b.png")}},
+		{Name: "seed URL also an asset of another seed, with an asset of its own", Seeds: []string{H + "/p1", H + "/p2"}, Nodes: []world.Node{page(H+"/p1", H+"/p2", H+"/a.png"), page(H+"/p2", H+"/c.png"), bin(H + "/a.png"), bin(H + "/c.png")}},
 		{Name: "seed URL also an asset of another seed", Seeds: []string{H + "/p1", H + "/p2"}, Nodes: []world.Node{page(H+"/p1", H+"/p2", H+"/a.png"), page(H+"/p2", H+"/a.png"), bin(H + "/a.png")}},
 	}
 	P := 1
@@ -136,8 +196,14 @@ func scenarios(tier string) []scen {
 		// writer options that have nothing to do with URL de-duplication must not change it
 		out = append(out, scen{Def: d, Opt: world.Options{Workers: 1, MaxConcurrentAssets: 1, MaxRetry: 0, MaxRedirect: 2, DisableLocalDedupe: true}, P: P})
 		out = append(out, scen{Def: d, Opt: world.Options{Workers: 1, MaxConcurrentAssets: 2, MaxRetry: 0, MaxRedirect: 2, DisableLocalDedupe: true, LocalSeencheck: true}, P: 0})
+		if len(d.Seeds) > 1 {
+			// the local store checked by two workers at once; the later seeds arrive while the first seed's assets are checked
+			for _, late := range []bool{false, true} {
+				out = append(out, scen{Def: d, Opt: world.Options{Workers: 2, MaxConcurrentAssets: 1, MaxRetry: 0, MaxRedirect: 2, LocalSeencheck: true}, P: P, Late: late})
+			}
+		}
 	}
-	return out
+	return append(out, concScenarios(tier)...)
 }
 
 type jobResult struct {
@@ -230,13 +296,14 @@ func main() {
 		total.Merge(r.Rep)
 	}
 	hkit.Evidence(propID, a.Tier, "model_checking", map[string]any{
-		"states":      total.States + seq["local"].States + seq["hq"].States,
-		"transitions": total.Transitions + seq["local"].Checks + seq["hq"].Checks,
+		"states":                        total.States + seq["local"].States + seq["hq"].States,
+		"transitions":                   total.Transitions + seq["local"].Checks + seq["hq"].Checks,
 		"traces_validated_against_impl": total.Executions + seq["local"].Histories + seq["hq"].Histories,
-		"samples":     []any{callAlphabet()[:3], total.Sample}, "exhaustive": total.Exhaustive,
+		"samples":                       []any{callAlphabet()[:3], total.Sample}, "exhaustive": total.Exhaustive,
 		"history_depth": depth, "call_alphabet": len(callAlphabet()),
 		"local_store": seq["local"], "crawl_hq": seq["hq"], "pipeline_scenarios": len(ss), "pipeline_executions": total.Executions,
-		"explanation": "every history of up to `history_depth` seen-checks (54 call shapes: seed / redirect target / asset / two assets x 6 URL spellings in 5 equivalence classes) through the real preprocess() on the real LevelDB store and on crawl HQ's seencheck endpoint, compared check by check with a map-based reference including the asset->seed promotion; plus duplicate-bearing sites through the real pipeline under the scheduler",
+		"explanation": "every history of up to `history_depth` seen-checks (54 call shapes: seed / redirect target / asset / two assets x 6 URL spellings in 5 equivalence classes) through the real preprocess() on the real LevelDB store and on crawl HQ's seencheck endpoint, compared check by check with a map-based reference including the asset->seed promotion; plus pairs of concurrent preprocess() calls on the real local store (conc.go: every interleaving within the preemption bound, may/must oracle from call stamps) and duplicate-bearing sites through the real pipeline under the scheduler",
+		"concurrent_call_pairs": len(concScenarios(a.Tier)),
 	}, []string{
 		"equivalence classes of the URL spellings are known by construction (case of scheme/host, default port, fragment)",
 		"crawl HQ fake: answers the URLs it had not seen, keyed by the value sent, as the real service",
